@@ -25,6 +25,7 @@ import Dalek.Props.C11.VecChain.Ifma_CachedPoint_identity
 import Dalek.Props.C11.VecChain.Ifma_CachedPoint_conditional_select
 import Dalek.Props.C11.VecChain.Ifma_CachedPoint_conditional_assign
 import Dalek.Props.C11.VecChain.History
+import Dalek.Props.C11.VecChain.Programs
 /-!
 # C11 — bound chaining through the parallel point formulas (AVX2 and IFMA), property theorems
 
@@ -60,5 +61,51 @@ theorem mul_by_pow_2_body_is_double :
 /-- non-vacuity: the identity constants and (say) the all-zero vector satisfy the invariants -/
 example : EnvIn (List.replicate 40 0) Avx2.invExt ∧ EnvIn (List.replicate 40 0) Avx2.invCached ∧
     EnvIn (List.replicate 20 0) Ifma.invExt ∧ EnvIn (List.replicate 20 0) Ifma.invCached := by decide +kernel
+
+/-! ## arbitrary well-typed programs of vector point operations -/
+
+def avx2Backend : Backend :=
+  { dbl := KAvx2Edwards.ExtendedPoint_double, add := KAvx2Edwards.ExtendedPoint_add_CachedPoint,
+    sub := KAvx2Edwards.ExtendedPoint_sub_CachedPoint, toCached := KAvx2Edwards.CachedPoint_from_ExtendedPoint,
+    negC := KAvx2Edwards.CachedPoint_neg, selC := KAvx2Edwards.CachedPoint_conditional_select,
+    asgC := KAvx2Edwards.CachedPoint_conditional_assign, idE := KAvx2Edwards.ExtendedPoint_identity,
+    idC := KAvx2Edwards.CachedPoint_identity, invE := Avx2.invExt, invC := Avx2.invCached }
+
+def ifmaBackend : Backend :=
+  { dbl := KIfmaEdwards.ExtendedPoint_double, add := KIfmaEdwards.ExtendedPoint_add_CachedPoint,
+    sub := KIfmaEdwards.ExtendedPoint_sub_CachedPoint, toCached := KIfmaEdwards.CachedPoint_from_ExtendedPoint,
+    negC := KIfmaEdwards.CachedPoint_neg, selC := KIfmaEdwards.CachedPoint_conditional_select,
+    asgC := KIfmaEdwards.CachedPoint_conditional_assign, idE := KIfmaEdwards.ExtendedPoint_identity,
+    idC := KIfmaEdwards.CachedPoint_identity, invE := Ifma.invExt, invC := Ifma.invCached }
+
+theorem avx2Backend_ok : avx2Backend.Ok :=
+  ⟨Avx2.ExtendedPoint_double_safe, Avx2.ExtendedPoint_add_CachedPoint_safe, Avx2.ExtendedPoint_sub_CachedPoint_safe,
+   Avx2.CachedPoint_from_ExtendedPoint_safe, Avx2.CachedPoint_neg_safe, Avx2.CachedPoint_conditional_select_safe,
+   Avx2.CachedPoint_conditional_assign_safe, Avx2.ExtendedPoint_identity_safe, Avx2.CachedPoint_identity_safe⟩
+
+theorem ifmaBackend_ok : ifmaBackend.Ok :=
+  ⟨Ifma.ExtendedPoint_double_safe, Ifma.ExtendedPoint_add_CachedPoint_safe, Ifma.ExtendedPoint_sub_CachedPoint_safe,
+   Ifma.CachedPoint_from_ExtendedPoint_safe, Ifma.CachedPoint_neg_safe, Ifma.CachedPoint_conditional_select_safe,
+   Ifma.CachedPoint_conditional_assign_safe, Ifma.ExtendedPoint_identity_safe, Ifma.CachedPoint_identity_safe⟩
+
+/-- **AVX2: every well-typed program** over ExtendedPoint / CachedPoint / Choice registers built from double, ± cached,
+`CachedPoint::from`, cached negation, conditional select/assign and the identities runs without overflow or assertion failure,
+checked = release, all registers inside their invariants. -/
+theorem avx2_program_safe (ops : List VOp) (Γ : List Ty) (env : List (List Nat))
+    (h : Typed avx2Backend Γ env) (hw : wellTyped avx2Backend Γ ops = true) :
+    ∃ env' Γ', runWith KProg.evalC avx2Backend env ops = some env' ∧ runWith KProg.evalW avx2Backend env ops = some env' ∧
+      Typed avx2Backend Γ' env' := program_safe avx2Backend_ok ops Γ env h hw
+
+/-- **IFMA: every well-typed program**, likewise. -/
+theorem ifma_program_safe (ops : List VOp) (Γ : List Ty) (env : List (List Nat))
+    (h : Typed ifmaBackend Γ env) (hw : wellTyped ifmaBackend Γ ops = true) :
+    ∃ env' Γ', runWith KProg.evalC ifmaBackend env ops = some env' ∧ runWith KProg.evalW ifmaBackend env ops = some env' ∧
+      Typed ifmaBackend Γ' env' := program_safe ifmaBackend_ok ops Γ env h hw
+
+/-- non-vacuity: the shape of one window step of the vector `variable_base::mul` (table entry selection by conditional
+assignment, conditional negation, four doublings, one addition) is a well-typed program -/
+example : wellTyped avx2Backend [.ext, .cached, .cached, .choice]
+    [.asgC 1 2 3, .negC 4, .selC 4 5 3, .dbl 0, .dbl 7, .dbl 8, .dbl 9, .add 10 6, .toCached 11, .idE, .idC] = true := by
+  decide
 
 end Dalek.Props.C11.VecChain
